@@ -157,7 +157,7 @@ def run(ctx, log):
     # a failing line that completed nothing leaves a retained session as it was (every kind of failure, at every depth)
     progcheck.run_failing_lines(ctx, log)
     # the same small programs at every size around the widths the implementation encodes things in (closed-form results)
-    progcheck.run_scale(ctx, log, ['args', 'objects', 'temporaries', 'arity'])
+    progcheck.run_scale(ctx, log, ['args', 'objects', 'temporaries', 'arity', 'alias', 'text'])
     rng = ctx.rng
     sh = shapes()
     cases = []      # (source, expectation or None, label)
